@@ -124,6 +124,9 @@ var payloadPool = []payload{
 	{"unbalanced-quote", []string{`"abc`}, false, false},
 	{"unbalanced-quote", []string{`msg: 'it's`}, false, false},
 	{"tabs", []string{"\tfoo: bar"}, false, false},
+	{"utf8", []string{`{% set msg = "→ done ✓" %}`}, false, false},
+	{"utf8", []string{`日本語: [`, `  é: "ü`}, false, false},
+	{"utf8", []string{`- alert: Ünïcödé`, `  expr: up == 0 — nope`}, false, false},
 	{"rule-like", []string{`- alert: Injected`, `  expr: up == 0`}, false, false},
 	{"rule-like", []string{`  - record: injected:rule`, `    expr: sum(injected)`}, false, false},
 	{"rule-like", []string{`groups:`, `- name: injected`, `  rules: []`}, false, false},
